@@ -196,7 +196,7 @@ func cycles(c *core.Ctx, r *core.Result, idx int, rng *rand.Rand, verbose bool) 
 		}
 	}
 	from := 0
-	appResetSeen := false // (sticky for the history: sanctions are judged per batch of steps)
+	appResetSeen := false   // (sticky for the history: sanctions are judged per batch of steps)
 	lostResetLogon := false // the engine's last Logon carried 141=Y and was never answered
 	for cyc := 1; cyc <= cf.Cycles; cyc++ {
 		before := snapshotStore(l)
